@@ -72,6 +72,22 @@ def d1_decimals(ctx, obs):
     ok = len(fd) == 1 and unparse(fd[0].value) == 'np.floor(np.log10(%s))' % dval
     ctx.check(rule, 'obs.py:_format_uncertainty#fexp', ok, 'fexp = floor(log10(error))', 'fexp = %s' % [unparse(s.value) for s in fd])
     env['fexp'] = F
+    # the digits of a formatted number are used whole: cutting characters off a rounded decimal string changes its magnitude
+    # ('100' -> '10' after a rounding carry) unless the decimal place is moved as well
+    def _is_formatted(n, depth=0):
+        if isinstance(n, ast.JoinedStr):
+            return True
+        if isinstance(n, ast.Call) and isinstance(n.func, ast.Attribute) and n.func.attr == 'format':
+            return True
+        if isinstance(n, ast.Call) and call_name(n) in ('str', 'repr', 'format'):
+            return True
+        if isinstance(n, ast.BinOp) and isinstance(n.op, ast.Mod) and isinstance(n.left, ast.Constant) and isinstance(n.left.value, str):
+            return True
+        if isinstance(n, ast.Name) and depth < 3:
+            return any(_is_formatted(d.value, depth + 1) for d in find_def(f, n.id))
+        return False
+    cuts = [n for n in walk(f) if isinstance(n, ast.Subscript) and isinstance(n.slice, ast.Slice) and _is_formatted(n.value)]
+    ctx.check(rule, 'obs.py:_format_uncertainty#digits-whole', not cuts, 'no formatted number is cut by a slice', 'the formatted number `%s` is cut by a slice: after a rounding carry (9.96 -> "100") the cut digits encode an error ten times too small' % (unparse(cuts[0]) if cuts else ''), obs.loc(cuts[0]) if cuts else obs.loc(f))
     rets = [s for s in statements(f) if isinstance(s, ast.Return)]
     seen = set()
     for r in rets:
@@ -212,13 +228,49 @@ def d4_views(ctx, obs):
             continue
         other = m.args.args[1].arg
         r = [s for s in statements(m) if isinstance(s, ast.Return)]
-        if len(r) != 1 or not isinstance(r[0].value, ast.Compare) or len(r[0].value.ops) != 1:
-            ctx.unrec(rule, key, 'not a single comparison')
+        body = [x for x in m.body if not (isinstance(x, ast.Expr) and isinstance(x.value, ast.Constant))]
+        if len(r) != 1 or len(body) != 1:
+            ctx.unrec(rule, key, 'not a single return statement')
             continue
-        c = r[0].value
-        l, rr, o = unparse(c.left), unparse(c.comparators[0]), type(c.ops[0])
-        ok = (l == 'self.value' and rr == other and o is op) or (rr == 'self.value' and l == other and o is mirror[op])
-        ctx.check(rule, key, ok, 'compares the central value with the operator its name denotes', '%s returns %s' % (name, unparse(c)), obs.loc(m))
+        e = r[0].value
+        # the result must be a function of the central value and the other operand only
+        foreign = []
+
+        def atoms_ok(n):
+            if isinstance(n, ast.Attribute) and unparse(n) in ('self.value', 'self._value'):
+                return
+            if isinstance(n, ast.Name) and n.id == other:
+                return
+            if isinstance(n, ast.Constant) and isinstance(n.value, (int, float, bool)):
+                return
+            if isinstance(n, ast.Call) and call_name(n) == 'float' and len(n.args) == 1:
+                atoms_ok(n.args[0])
+                return
+            if isinstance(n, (ast.Compare, ast.BoolOp, ast.UnaryOp, ast.BinOp)):
+                for ch in ast.iter_child_nodes(n):
+                    if isinstance(ch, ast.expr):
+                        atoms_ok(ch)
+                return
+            foreign.append(unparse(n))
+        atoms_ok(e)
+        if foreign:
+            ctx.violated(rule, key, '%s returns `%s`, which depends on %s and not only on the central value and the other operand (e.g. the tolerance based equality makes x <= y and x >= y true for unequal values)' % (
+                name, unparse(e), foreign), obs.loc(m))
+            continue
+        import operator as _op
+        pyop = {ast.Lt: _op.lt, ast.LtE: _op.le, ast.Gt: _op.gt, ast.GtE: _op.ge}[op]
+        wrong = []
+        for a_, b_ in ((0.0, 1.0), (1.0, 0.0), (1.0, 1.0), (-3e-11, 0.0), (0.0, -3e-11), (2.5, 2.5000000001)):
+            class _S:
+                value = a_
+                _value = a_
+            try:
+                got = bool(eval(compile(ast.Expression(body=e), '<cmp>', 'eval'), {'__builtins__': {'float': float}}, {'self': _S, other: b_}))
+            except Exception as ex:
+                raise Unrecognised('cannot evaluate %s: %s' % (unparse(e), ex))
+            if got != pyop(a_, b_):
+                wrong.append((a_, b_))
+        ctx.check(rule, key, not wrong, 'value %s other, decided on the central value alone' % unparse(e), '%s returns `%s`: wrong for (value, other) = %s' % (name, unparse(e), wrong), obs.loc(m))
     m = meths.get('__float__')
     r = [s for s in statements(m) if isinstance(s, ast.Return)] if m else []
     ctx.check(rule, 'obs.py:Obs.__float__', len(r) == 1 and unparse(r[0].value) == 'float(self.value)', 'float = central value', '__float__ returns %s' % [unparse(x.value) for x in r])
@@ -259,6 +311,9 @@ def run(ctx):
 
 
 SELFTEST = [
+    ('error-digits-cut', 'pyerrors/obs.py', "        return f\"{value:.{significance - 1}f}({dvalue:1.{significance - 1}f})\"", "        return f\"{value:.{significance - 1}f}(\" + f\"{dvalue:1.{significance - 1}f}\"[:significance + 1] + \")\"", 'C19-D1'),
+    ('le-via-tolerant-eq', 'pyerrors/obs.py', "    def __le__(self, other):\n        return self.value <= other", "    def __le__(self, other):\n        return self.value < other or self == other", 'C19-D4'),
+    ('benign-ge-mirrored', 'pyerrors/obs.py', "    def __ge__(self, other):\n        return self.value >= other", "    def __ge__(self, other):\n        return not (self.value < other)", 'BENIGN'),
     ('decimals-branch1', 'pyerrors/obs.py', "form='.' + str(-int(fexp) + significance - 1) + 'f')", "form='.' + str(-int(fexp) + significance) + 'f')", 'C19-D1'),
     ('mantissa-branch1', 'pyerrors/obs.py', "dvalue * 10 ** (-fexp + significance - 1), form", "dvalue * 10 ** (-fexp + significance), form", 'C19-D1'),
     ('decimals-branch2', 'pyerrors/obs.py', 'return f"{value:.{significance - 1}f}({dvalue:1.{significance - 1}f})"', 'return f"{value:.{significance}f}({dvalue:1.{significance - 1}f})"', 'C19-D1'),
